@@ -189,10 +189,11 @@ def control_file(rnd):
 
 def dotqmail(rnd):
     lines = []
-    for _ in range(rnd.randint(0, 6)):
+    for _ in range(rnd.choice([0, 1, 2, 3, 4, 5, 6, 6, 30])):
         lines.append(rnd.choice([b"#c", b"./Mailbox", b"./Maildir/", b"&a@b.test", b"a@b.test", b"|true", b"|exit 99", b"|exit 100",
                                  b"|exit 111", b"&", b"& a@b", b"+list", b"+x", b".", b"/", b"./" + b"x" * 300, b"&" + b"a" * 1100 + b"@b",
-                                 b"|" + b"x" * 2000, b"  ", b"\t", b"&<a@b>", b"&a@b, c@d", b"a b", b"\0", b"&\xff@\xfe", b"./M \t "]))
+                                 b"|" + b"x" * 2000, b"  ", b"\t", b"&<a@b>", b"&a@b, c@d", b"a b", b"\0", b"&\xff@\xfe", b"./M \t ",
+                                 b" a@b.test", b"\ta@b.test", b" &a@b.test", b"  x  ", b" |true", b" ./Mailbox", b"&a@b.test \t", b"./Maildir/ \t"]))
     return b"\n".join(lines) + rnd.choice([b"\n", b"", b"\n\n"])
 
 
